@@ -263,6 +263,11 @@ tight(int plen, int L, long n, long *perreq)
 	return r;
 }
 
+/* a UID so long that "?tuid=" + UID + " HTTP/1.1\r\n\r\n" cannot follow the path in one 4096-octet request: echsq cannot
+ * ask for it at all.  What it does instead (give up with an error) is not judged; what it sends, if anything, still
+ * has to be a complete request */
+static int unfittable;
+
 static int want[NCODE], got[NCODE];
 static long asked[8192];	/* codes in the order asked, per realm */
 static char reqstart[8192];
@@ -314,7 +319,7 @@ run_case(const struct form_s *f, int L, long n, long perreq)
 
 	rc = echsq_main(argc, argv);
 
-	if (rc != 0) {
+	if (rc != 0 && !unfittable) {
 		snprintf(sig, sizeof(sig), "output/exit-code/%s", f->name);
 		vd_viol(sig, "echsq returns %d although every request was answered with 200", rc);
 	}
@@ -408,6 +413,9 @@ run_case(const struct form_s *f, int L, long n, long perreq)
 			if (nreq[realm]) {
 				vd_viol("harness/refused-but-asked", "realm %d", realm);
 			}
+			continue;
+		}
+		if (unfittable) {
 			continue;
 		}
 		if (nreq[realm] == 0) {
@@ -586,6 +594,7 @@ enumerate(void)
 					f->opt[0] ? " " : "", f->opt[0] ? f->opt[0] : "", f->opt[1] ? " " : "", f->opt[1] ? f->opt[1] : "", n, L, uids[0], uids[n - 1],
 					f->refuse0 ? ", no per-user daemon" : "", f->refuse1 ? ", no system-wide daemon" : "", t ? " [tight]" : "");
 				vd_shape("%s/%s/%s", f->name, Lclass(L), t ? "tight" : n > per ? "split" : "one-request");
+				unfittable = plen + 6 + L + 13 >= 4096;
 				run_case(f, L, n, per);
 				if (vd_stop()) {
 					return;
